@@ -40,7 +40,9 @@ class Pattern(Leaf):
         _ = lean
         pat = self.pattern or ""
         # multiline patterns are OK
-        pat = trim(pat)
+        # NOTE: leading/trailing whitespace of a one-line pattern is part of the pattern
+        if '\n' in pat:
+            pat = trim(pat)
         if '/' in pat:
             newpat = pat.replace('"', r'\"')
             regex = f'?"{newpat}"'
